@@ -22,7 +22,8 @@ ASSUMPTIONS = ['thread interleavings are explored at the shim\'s yield points (E
                'the lineage client is a capturing fake; OPENLINEAGE_DISABLED is unset']
 BUDGET = {'quick': 40, 'thorough': 600}
 
-ENDS = ['exit_setup', 'exit_process', 'exit_shutdown', 'exit_exc_process', 'stop_evt', 'raise_init', 'raise_setup', 'raise_process', 'raise_shutdown', 'exit_after', 'exit_init', 'stop_evt_inside']
+ENDS = ['exit_setup', 'exit_process', 'exit_shutdown', 'exit_exc_process', 'stop_evt', 'raise_init', 'raise_setup', 'raise_process', 'raise_shutdown', 'exit_after', 'exit_init', 'stop_evt_inside',
+        'prop_clean', 'prop_error']     # the last two: an upstream neighbour ends (cleanly / by an exception) and this filter obeys the propagated exit
 _S = {}
 
 
@@ -64,7 +65,7 @@ def run_case(case):
 
     def facet(*a, **kw):
         # only the heartbeat thread is held up (a preemption hits one thread, not both)
-        if case.get('preempt_ms') is not None and world.current is not None and world.current.name != 'main':
+        if case.get('preempt_ms') is not None and world.current is not None and world.current.name not in ('main', 'up'):
             world.sleep(case['preempt_ms'] / 1000)
         return orig_facet(*a, **kw)
     lin.create_openfilter_facet_with_fields = facet
@@ -109,15 +110,42 @@ def run_case(case):
             if end == 'raise_shutdown':
                 raise Boom('shutdown')
 
+    from openfilter.filter_runtime.frame import Frame
+
+    class Up(Filter):       # upstream neighbour for the propagated-exit cases (no lineage of its own)
+        emitter = None
+
+        def setup(self, config):
+            self.n = 0
+
+        def process(self, frames):
+            self.n += 1
+            world.sleep(case['work_ms'] / 1000)
+            if self.n > k + 1:
+                if end == 'prop_clean':
+                    self.exit('upstream done')
+                raise Boom('upstream failed')
+            return Frame({'n': self.n})
+
     import threading
     stop_evt = threading.Event()
     cfg = {'id': 'f'}
+    propagated = end in ('prop_clean', 'prop_error')
+    if propagated:
+        cfg['sources'] = 'tcp://127.0.0.1:6000'
     if end == 'exit_after':
         cfg['exit_after'] = max(0.05, k * case['work_ms'] / 1000)
 
+    def up_main():
+        try:
+            Up.run({'id': 'up', 'outputs': 'tcp://*:6000', 'outputs_required': 'f'}, sig_stop=False, prop_exit='all', obey_exit='none')
+        except BaseException as e:
+            if isinstance(e, simnet.SimKilled):
+                raise
+
     def main():
         try:
-            F.run(cfg, sig_stop=False, stop_evt=stop_evt)
+            F.run(cfg, sig_stop=False, stop_evt=stop_evt, prop_exit='none', obey_exit='all')
             res['how'] = 'returned'
             res['t_end'] = world.now
         except simnet.SimKilled:
@@ -129,11 +157,13 @@ def run_case(case):
             res['type'] = type(e).__name__
     try:
         world.spawn('main', main)
+        if propagated:
+            world.spawn('up', up_main)
         if end == 'stop_evt':
             world.at(int(max(1, k * case['work_ms'] + 7) * 1_000_000), stop_evt.set)
-        horizon = (k + 3) * case['work_ms'] + 6 * case['interval_ms'] + 40 * (case['emit_cost_ms'] + (case.get('preempt_ms') or 0)) + 3000
+        horizon = (k + 6) * case['work_ms'] + (1500 if propagated else 0) + 6 * case['interval_ms'] + 40 * (case['emit_cost_ms'] + (case.get('preempt_ms') or 0)) + 3000
         world.run(int(horizon * 1_000_000), stop=lambda: 'how' in res and world.now > res['t_end'] + int((2 * case['interval_ms'] + 10 * (case['emit_cost_ms'] + (case.get('preempt_ms') or 0)) + 200) * 1_000_000))
-        hb_alive = [a.name for a in world.actors if a.name != 'main' and not a.done]
+        hb_alive = [a.name for a in world.actors if a.name not in ('main', 'up') and not a.done]
     finally:
         world.shutdown()
         harness.uninstall()
@@ -148,7 +178,7 @@ def run_case(case):
             return bad(f'harness expectation: {end} should make run() raise Boom, got {res}', f'unexpected-run-result:{end}', classes)
     elif res['how'] != 'returned':
         return bad(f'{end}: run() raised {res.get("exc")}', f'clean-run-raised:{end}:{res.get("type")}', classes)
-    clean = res['how'] == 'returned'
+    clean = res['how'] == 'returned' and end != 'prop_error'   # an obeyed propagated *error* returns normally but the run did end by an error
     if end == 'raise_init' and not seq:
         return ok(True, classes + ['no event before init'], {'events': seq})      # nothing was started, nothing to terminate
     want_t = 'COMPLETE' if clean else 'ABORT'
@@ -158,7 +188,8 @@ def run_case(case):
         sig = 'no-start' if not seq or seq[0] != 'START' else 'no-terminal-event' if nterm == 0 else 'multiple-terminal-events' if nterm > 1 else 'event-after-terminal'
         return bad(f'{end} ({"clean" if clean else "error"} run): lineage events {seq} are not START RUNNING* (COMPLETE|ABORT)', f'shape:{sig}', classes)
     if seq[-1] != want_t:
-        return bad(f'{end}: run() {"returned normally" if clean else "raised " + str(res.get("exc"))} but the terminal lineage event is {seq[-1]}', f'wrong-terminal:{seq[-1]}', classes)
+        how = 'ended because a neighbour failed' if end == 'prop_error' else 'returned normally' if clean else 'raised ' + str(res.get('exc'))
+        return bad(f'{end}: run() {how} but the terminal lineage event is {seq[-1]}', f'wrong-terminal:{seq[-1]}', classes)
     if len({e[1] for e in events}) != 1:
         return bad(f'{end}: events carry {len({e[1] for e in events})} different run ids', 'run-id', classes)
     if hb_alive:
